@@ -19,6 +19,7 @@ import (
 	"github.com/tikv/pd/server/config"
 	"github.com/tikv/pd/server/core"
 	"github.com/tikv/pd/server/core/storelimit"
+	"github.com/tikv/pd/server/kv"
 	"github.com/tikv/pd/server/schedule/opt"
 	"github.com/tikv/pd/server/schedule/placement"
 	"github.com/tikv/pd/server/versioninfo"
@@ -75,6 +76,7 @@ type RuleSpec struct {
 	Cons   []ConsSpec
 	Labels []string
 	Iso    string
+	Group  string // rule group ("" = pd)
 	Start  string // key range of the rule (raw keys, "" = unbounded)
 	End    string
 }
@@ -89,12 +91,20 @@ type CfgSpec struct {
 	RejectLeader                                                     [][2]string
 }
 
+type GroupSpec struct {
+	ID       string
+	Index    int
+	Override bool
+}
+
 type ClusterSpec struct {
-	Cfg    CfgSpec
-	Stores []StoreSpec
-	Region RegionSpec
-	Rules  []RuleSpec
-	Tags   []string // generator features, for the histogram
+	Groups  []GroupSpec // rule groups configured through the group API
+	Restart bool        // a NEW RuleManager is initialised on the same storage before the check (PD restart / leader change)
+	Cfg     CfgSpec
+	Stores  []StoreSpec
+	Region  RegionSpec
+	Rules   []RuleSpec
+	Tags    []string // generator features, for the histogram
 }
 
 // ---------- label tables (ids of coq/model/C10_Checker.v) ----------
@@ -412,6 +422,29 @@ func Generate(r *rng.R, o GenOpt) ClusterSpec {
 			c.Rules = append(c.Rules, ru)
 		}
 		tag(fmt.Sprintf("rules:n=%d", nr))
+		if r.Pct(40) {
+			// a second rule group configured through the group API (index / override), some rules moved into it
+			g := GroupSpec{ID: "app", Index: 1 + r.Intn(2), Override: r.Pct(60)}
+			moved := 0
+			for i := range c.Rules {
+				if r.Pct(50) {
+					c.Rules[i].Group = "app"
+					moved++
+				}
+			}
+			if moved == 0 {
+				c.Rules[len(c.Rules)-1].Group = "app"
+			}
+			c.Groups = append(c.Groups, g)
+			if r.Pct(30) {
+				c.Groups = append(c.Groups, GroupSpec{ID: "pd", Index: 2 + r.Intn(2), Override: r.Pct(30)})
+			}
+			tag("rules:groups")
+		}
+		c.Restart = r.Pct(50)
+		if c.Restart {
+			tag("rules:manager-restarted")
+		}
 		if r.Pct(8) {
 			// rule sets that do NOT cover the region: two voter rules meeting at a key inside region 1000
 			k := fmt.Sprintf("%020d", reg.ID) + "5"
@@ -426,10 +459,11 @@ func Generate(r *rng.R, o GenOpt) ClusterSpec {
 // ---------- build the real objects ----------
 
 type Built struct {
-	Spec   ClusterSpec
-	TC     *mockcluster.Cluster
-	Region *core.RegionInfo
-	Cancel context.CancelFunc
+	RestartDiff string // the placement fit of the region before / after the rule manager restart, when they differ
+	Spec        ClusterSpec
+	TC          *mockcluster.Cluster
+	Region      *core.RegionInfo
+	Cancel      context.CancelFunc
 }
 
 func role(i int) metapb.PeerRole {
@@ -463,6 +497,16 @@ func Build(spec ClusterSpec) *Built {
 		opts.SetLabelProperty(opt.RejectLeader, kv[0], kv[1])
 	}
 	tc := mockcluster.NewCluster(ctx, opts)
+	var ruleStorage *core.Storage
+	if spec.Cfg.Rules {
+		// our own storage under the rule manager, so that a second manager can be initialised from it (restart)
+		ruleStorage = core.NewStorage(kv.NewMemoryKV())
+		rm := placement.NewRuleManager(ruleStorage, tc)
+		if err := rm.Initialize(spec.Cfg.MaxReplicas, spec.Cfg.Labels); err != nil {
+			panic(err)
+		}
+		tc.RuleManager = rm
+	}
 	if !spec.Cfg.Joint {
 		// exercise both ways of switching joint consensus off
 		if spec.Cfg.MaxReplicas%2 == 0 {
@@ -535,7 +579,11 @@ func Build(spec ClusterSpec) *Built {
 		core.SetApproximateSize(10), core.SetApproximateKeys(1000))
 	if spec.Cfg.Rules {
 		for _, ru := range spec.Rules {
-			pr := &placement.Rule{GroupID: "pd", ID: ru.ID, Index: ru.Index, Role: placement.PeerRoleType(ru.Role), Count: ru.Count,
+			grp := ru.Group
+			if grp == "" {
+				grp = "pd"
+			}
+			pr := &placement.Rule{GroupID: grp, ID: ru.ID, Index: ru.Index, Role: placement.PeerRoleType(ru.Role), Count: ru.Count,
 				LocationLabels: append([]string{}, ru.Labels...), IsolationLevel: ru.Iso,
 				StartKeyHex: hex.EncodeToString([]byte(ru.Start)), EndKeyHex: hex.EncodeToString([]byte(ru.End))}
 			for _, cs := range ru.Cons {
@@ -544,9 +592,26 @@ func Build(spec ClusterSpec) *Built {
 			_ = tc.RuleManager.SetRule(pr) // a rule that matches no store / has an invalid shape is rejected by PD: not installed
 		}
 		_ = tc.RuleManager.DeleteRule("pd", "default") // refused when no voter rule would remain
+		for _, g := range spec.Groups {
+			_ = tc.RuleManager.SetRuleGroup(&placement.RuleGroup{ID: g.ID, Index: g.Index, Override: g.Override})
+		}
 	}
 	tc.PutRegion(region)
-	return &Built{Spec: spec, TC: tc, Region: region, Cancel: cancel}
+	bt := &Built{Spec: spec, TC: tc, Region: region, Cancel: cancel}
+	if spec.Cfg.Rules && spec.Restart {
+		// PD restart / leader change: a new RuleManager initialised from the same storage must serve the same rules
+		before, _ := bt.CoqFit()
+		rm := placement.NewRuleManager(ruleStorage, tc)
+		if err := rm.Initialize(spec.Cfg.MaxReplicas, spec.Cfg.Labels); err != nil {
+			panic(err)
+		}
+		tc.RuleManager = rm
+		after, _ := bt.CoqFit()
+		if before != after {
+			bt.RestartDiff = "placement fit of the region before the restart: " + before + " ; after: " + after
+		}
+	}
+	return bt
 }
 
 // ---------- read back and print ----------
